@@ -56,6 +56,28 @@ func c01Event(t *rapid.T) (*mocrelay.Event, gen.Key) {
 		}
 	}
 	gen.Sign(e, key)
+	switch rapid.IntRange(0, 39).Draw(t, "mine00") {
+	case 0, 1, 2, 3:
+		// search (deterministically) for a variant whose id ends in a zero byte
+		base := e.Content
+		for i := 0; i < 5000; i++ {
+			e.Content = base + fmt.Sprint(i)
+			if strings.HasSuffix(gen.ComputeID(e), "00") {
+				break
+			}
+		}
+		gen.Sign(e, key)
+	case 4:
+		// ... or whose signature does
+		base := e.Content
+		for i := 0; i < 1200; i++ {
+			e.Content = base + fmt.Sprint(i)
+			gen.Sign(e, key)
+			if strings.HasSuffix(e.Sig, "00") {
+				break
+			}
+		}
+	}
 	return e, key
 }
 
@@ -240,6 +262,21 @@ func TestC01Authenticity(t *testing.T) {
 			w.Pubkey = e.Pubkey
 			w.ID = e.ID
 			alts = append(alts, alt{"sig-by-other-key", w})
+		}
+		// shortened / lengthened id and sig (also when the cut-off byte is 00)
+		for _, f := range []string{"id", "sig"} {
+			get := func(x *mocrelay.Event) *string {
+				if f == "id" {
+					return &x.ID
+				}
+				return &x.Sig
+			}
+			x := gen.CloneEvent(e)
+			*get(x) = (*get(x))[:len(*get(x))-2]
+			alts = append(alts, alt{f + "-truncated", x})
+			y := gen.CloneEvent(e)
+			*get(y) = *get(y) + "00"
+			alts = append(alts, alt{f + "-extended", y})
 		}
 		for _, a := range alts {
 			col.Label("alteration:" + strings.SplitN(a.name, "/", 2)[0])
